@@ -1,1 +1,19 @@
-// kani hooks for src/sstable/block.rs (included as a child module `verif_kani` of that file)
+// Kani harnesses for src/sstable/block.rs
+use super::*;
+
+/// COMPLETE for all (offset, size) in usize x usize: varint loops are bounded by the operand width
+/// (<= 10 bytes per value; unwind 12 with unwinding assertions on).
+/// BlockHandle::decode(encode(h)) == (h, bytes written).
+#[kani::proof]
+#[kani::unwind(12)]
+fn block_handle_roundtrip_complete() {
+	let h = BlockHandle::new(kani::any(), kani::any());
+	let mut buf = [0u8; 20];
+	let n = h.encode_into(&mut buf);
+	assert!(n >= 2 && n <= 20);
+	let r = BlockHandle::decode(&buf[..n]);
+	assert!(r.is_ok());
+	let (d, m) = r.unwrap();
+	assert!(d.offset == h.offset && d.size == h.size);
+	assert!(m == n);
+}
